@@ -18,6 +18,7 @@ import (
 	"testing"
 
 	"git.torproject.org/pluggable-transports/snowflake.git/v2/common/amp"
+	"git.torproject.org/pluggable-transports/snowflake.git/v2/common/messages"
 	"git.torproject.org/pluggable-transports/snowflake.git/v2/zz_verif/wire"
 )
 
@@ -81,8 +82,52 @@ func c11Amp(scenario string, answer []byte, path string) string {
 	return "200," + c11x(d)
 }
 
+// IPC.ClientOffers called directly on a fresh twin broker: "ok,x<response>" or "err"
+func c11Ipc(scenario string, answer, body []byte) string {
+	i := c11Broker(scenario, answer)
+	var response []byte
+	if err := i.ClientOffers(messages.Arg{Body: body, RemoteAddr: ""}, &response); err != nil {
+		return "err"
+	}
+	return "ok," + c11x(response)
+}
+
+// for a '{'-leading body: the call clientOffers' legacy branch makes (the body shimmed into a versioned poll, no NAT
+// header) on another twin: "<class>,x<response>,<none|x<answer>:x<error>>"; "n" for other bodies
+func c11Shim(scenario string, answer, body []byte) string {
+	if len(body) == 0 || body[0] != '{' {
+		return "n"
+	}
+	req := messages.ClientPollRequest{Offer: string(body), NAT: ""}
+	enc, err := req.EncodeClientPollRequest()
+	if err != nil {
+		return "!shim"
+	}
+	i := c11Broker(scenario, answer)
+	var response []byte
+	err = i.ClientOffers(messages.Arg{Body: enc, RemoteAddr: ""}, &response)
+	dec := "none"
+	if err == nil {
+		if r, derr := messages.DecodeClientPollResponse(response); derr == nil {
+			dec = c11x([]byte(r.Answer)) + ":" + c11x([]byte(r.Error))
+		}
+	}
+	return vhIpcClass(err) + "," + c11x(response) + "," + dec
+}
+
 func c11Case(a []string) string {
 	switch a[0] {
+	case "brokeripc":
+		// brokeripc <scenario> <answer> <body>
+		return c11Ipc(a[1], c11Payload(a[2]), c11Payload(a[3])) + " " + c11Shim(a[1], c11Payload(a[2]), c11Payload(a[3]))
+	case "broker2":
+		// broker2 <scenario> <answer> <body> <urlpath> <ipc> <shim> <errresp>: both endpoints, each on a fresh twin
+		answer, body := c11Payload(a[2]), c11Payload(a[3])
+		if c11Ipc(a[1], answer, body) != a[5] || c11Shim(a[1], answer, body) != a[6] {
+			return "!oracle-mismatch"
+		}
+		st, b := c11Post(a[1], answer, body)
+		return "post=" + strconv.Itoa(st) + "," + c11x(b) + " amp=" + c11Amp(a[1], answer, string(c11Payload(a[4])))
 	case "brokerpost":
 		// brokerpost <scenario> <answer> <body>
 		st, b := c11Post(a[1], c11Payload(a[2]), c11Payload(a[3]))
